@@ -9,7 +9,7 @@ import hvhist
 from hvgen import Mirror
 
 PROP_MODULES = ["HvsrVerif.Props.C12"]
-BRIDGE_MODULES = ["HvsrVerif.Bridge.C12"]
+BRIDGE_MODULES = ["HvsrVerif.Bridge.C12", "HvsrVerif.Bridge.PyObjectIO"]
 
 
 def parse_file(fname):
